@@ -54,7 +54,8 @@ a[i], a[j] = a[j], a[i] - whenever the resulting list is one the container can d
 WEIGHT item, a flow Columns a flow column, no widget object in two slots).  A deterministic sweep (_list_sweep) runs, as
 hist cases, every such method with every argument shape on Pile (flow / box), Columns, GridFlow and ListBox (both
 walkers) of 0/1..4 (thorough 5) distinct Text / Edit items with the focus on every position, bare (rendered with and
-without focus) and inside a LineBox: render, ONE list edit, render.
+without focus, all canvases held) and inside a LineBox (only the latest rendering held, as a Screen): render, ONE list edit,
+render.
 
 After every op the root is rendered in both worlds at the
 current view (size, focus) and compared:
@@ -140,10 +141,10 @@ RULE = (
     "with steps 2,3,-1,-2, clear, [-i]=, swap a[i],a[j]=a[j],a[i]) when the container can display the result; drop all held canvases + gc.collect(1). ~20% of "
     "the ops are not followed by the comparison render; 1 in 7 list elements is a correlated pattern (change "
     "without redraw / other view / change again; view A, view B, change, view A; three changes of one widget; a node rendered on its own, another view, a change of that node; "
-    "two list edits of one container, the first without redraw). Before the Hypothesis campaign a deterministic sweep (exhaustive 'list-methods', ~21000 hist cases quick): "
+    "two list edits of one container, the first without redraw). Before the Hypothesis campaign a deterministic sweep (exhaustive 'list-methods', ~19000 hist cases quick): "
     "{Pile flow, Pile box, Columns, GridFlow, ListBox on SimpleFocusListWalker / SimpleListWalker} x length 0|1..4 (5 thorough) of distinct Text/Edit items x every focus "
-    "position x {bare root rendered focused, bare unfocused, inside a LineBox} x every list method x its whole argument domain for that length (all i<=j, all permutations "
-    "(<=24 quick, 120 thorough) x reverse, all extended slices, all swaps): render, one list edit, render. "
+    "position x {bare root rendered focused, bare unfocused (hold all), inside a LineBox (hold last)} x every list method x its whole argument domain for that length "
+    "(all i<=j, every sort order (<=24 quick, 120 thorough; 6 when unfocused) and reverse=True with the first six keys, all extended slices, all swaps): render, one list edit, render. "
     "Oracle after every op: root rendering of A == B (content runs, cursor), rows equal, confirmed on the same "
     "tree; every held canvas (and every finalized canvas below it) unchanged; canvas mutators raise. Non-trivial: a mutation of a strict descendant of the "
     "root (or a list edit of the root's own contents / walker) is followed by the comparison render of the root at a (size, focus) that was rendered before the "
@@ -2000,7 +2001,8 @@ def _sweep_args(n, max_perms):
     add("pop(i)", [(i, c) for i in range(n) for c in (0, 1)])
     add("remove", [(i, 0) for i in range(n)])
     add("reverse", [(0, 0)])
-    add("sort", [(p % 48, 2 * (p // 48) + r) for p in range(min(math.factorial(n), max_perms)) for r in (0, 1)])
+    # every order; reverse=True only adds another way to reach an order: with the first six keys
+    add("sort", [(p % 48, 2 * (p // 48) + r) for p in range(min(math.factorial(n), max_perms)) for r in (0, 1) if not r or p < 6])
     add("*=", [(0, 0), (1, 0)])
     add("[i:j]=", [(i + (n + 1) * (j - i), c) for i, j in pairs for c in range(3)] + [(i + (n + 1) * (j - i), 3) for i, j in pairs if j - i >= 2])
     add("del [i:j]", [(i + (n + 1) * (j - i), 0) for i, j in pairs if j > i])
@@ -2021,9 +2023,11 @@ def _list_sweep(max_n, max_perms):
             for f in range(max(n, 1)):
                 mode, tree = _sweep_tree(kind, n, f)
                 for wrap, vfocus in ((False, True), (False, False), (True, True)):
-                    for m, b, c in _sweep_args(n, max_perms):
+                    # (the first rendering is the focused one: no view op needed; unfocused: the first six sort orders)
+                    for m, b, c in _sweep_args(n, max_perms if vfocus else 6):
                         yield {"enc": "utf-8", "mode": mode, "spec": box(tree) if wrap else tree, "sizes": [[14, 6], [9, 4]],
-                               "hold": "all", "plant": [], "ops": [["view", 0, vfocus], ["list", 0, m, b, c]]}
+                               "hold": "last" if wrap else "all", "plant": [],
+                               "ops": [["list", 0, m, b, c]] if vfocus else [["view", 0, False], ["list", 0, m, b, c]]}
 
 
 def shard(ctx):
@@ -2031,7 +2035,7 @@ def shard(ctx):
     _CTX = ctx
     try:
         ctx.sweep("hist", _list_sweep(ctx.scale(4, 5), ctx.scale(24, 120)), nontrivial=lambda c: False,
-                  classify=lambda c: [f"sweep:list:{LIST_METHODS[c['ops'][1][2]]}"], exhaustive_name="list-methods")
+                  classify=lambda c: [f"sweep:list:{LIST_METHODS[c['ops'][-1][2]]}"], exhaustive_name="list-methods")
         if ctx.failure is not None:
             return
         ctx.given("hist", _cases(ctx.scale(3, 4), ctx.scale(25, 60)), ctx.scale(500, 5000),
